@@ -4,7 +4,9 @@ prop(
     "C16",
     title="Encrypted user passwords round-trip, bind to the nonce, and never crash",
     technique="runtime monitor: the real legacy_password_encrypt / legacy_password_decrypt (and the identity-token "
-              "wrappers) run on generated passwords, nonces, tampered ciphertexts and crafted plaintexts; an exact "
+              "wrappers) run on generated passwords, nonces, tampered ciphertexts and crafted plaintexts, and the same "
+              "byte strings are put into UserNameIdentityTokens handed to ServerState::authenticate_endpoint of real "
+              "servers (one per private key size and one deployed without certificate / private key); an exact "
               "reference over the plaintext bytes (length prefix, password, nonce tail) says which answers are allowed; "
               "panics captured per case",
     rule="case kinds: roundtrip (key 1024/2048/4096 x PKCS#1 / OAEP-SHA1 / OAEP-SHA256, password aimed at k*block-1, "
@@ -15,17 +17,41 @@ prop(
          "crafted plaintexts encrypted with the real public_encrypt (length prefix off by one / zero / max / big-endian, "
          "plaintext shorter than the nonce, nonce reaching back into the prefix, non UTF-8 password, irregular block sizes). "
          "The hostile grid is enumerated for all 9 (key, padding) pairs and split over the shards; roundtrip cases are seeded "
-         "random. distinct = (kind, key size, padding, block count, distance to block boundary, password alphabet, nonce "
-         "length class, relation of the wrong nonce, tampering operation, root cause class of a crafted plaintext)",
+         "random. Server cases: four servers built by Server::new (own key of 1024 / 2048 / 4096 bits, or an empty PKI "
+         "directory so that server_pkey is None), each with three None/None endpoints (password security policy unset, "
+         "Basic128Rsa15, Basic256Sha256) listing three password users (ASCII, empty, non-ASCII password); a token carries "
+         "the policy id the server advertises, a configured / unknown / null user name, encryptionAlgorithm null, empty, "
+         "one of the three Part 7 URIs or an unknown URI, and as password field: every raw and crafted input of the "
+         "hostile grid (sent to the server owning that key under the matching algorithm and to the server without a key), "
+         "null / empty / right / wrong / non-UTF-8 / 100-byte / one-block plain bytes, the right password encrypted with "
+         "each padding (so labels match and mismatch), for another nonce, for another certificate, a wrong password, a "
+         "truncated ciphertext, under a null and a 32-byte server nonce; plus seeded random tokens (nonce length 0..64 or "
+         "null, random tampering, crafted length prefixes, passwords aimed at block boundaries). The server grid is "
+         "enumerated and split over the shards (a tenth of it in the instrumented passes). "
+         "distinct = (kind, key size, padding, block count, distance to block boundary, password alphabet, nonce "
+         "length class, relation of the wrong nonce, tampering operation, root cause class of a crafted plaintext; for "
+         "server cases: server key, endpoint, algorithm label, user class, password field class, nonce class, certificate "
+         "encrypted for)",
     design_ref="4 C16",
     level_text="Held means: on every explored case the real decrypt returned the original password under the same nonce, "
                "returned an error under every other nonce that is not itself a suffix of password||nonce, never accepted "
-               "a plaintext without room for the nonce, and never panicked on any byte string.",
+               "a plaintext without room for the nonce, and never panicked on any byte string; and every "
+               "ServerState::authenticate_endpoint call, on servers with and without a private key, returned a status "
+               "instead of panicking, returned Ok only when the token carries the configured password of that user in "
+               "plain text or encrypted for the server's certificate and the presented nonce under the padding its "
+               "algorithm names (never on a server without a key, for an unknown algorithm, another certificate, another "
+               "nonce or bytes that are no ciphertext), and accepted every untouched token of that kind.",
     level_note="A nonce that is a proper suffix of password||nonce names the same plaintext as (longer password, shorter "
                "nonce); the format cannot tell these apart, so such decrypts are only required to be consistent and are "
                "counted (wrong_nonce_is_suffix_of_plaintext). An inconsistent length prefix that is accepted is counted, "
                "not flagged. The thorough tier repeats a tenth of the workload on an AddressSanitizer build (nightly, -Zsanitizer=address; OpenSSL itself is not instrumented, so only overflows on the Rust side of the FFI buffers are visible); the driver first requires ASan to flag a deliberate out-of-bounds read. A hundredth of it also runs under valgrind memcheck on the plain build (addressability errors only), which does see inside libcrypto. "
-               "Trusted: the 15-line plaintext reference in harness/crates/crypto/src/p_crypto.rs and OpenSSL itself.",
+               "Server cases call authenticate_endpoint directly with a presented nonce (so that nonce lengths 0..64 and a null "
+               "nonce are reachable); the full ActivateSession path, including a server without a key, is C20's. Status codes of "
+               "refusals are recorded, not judged. An empty-string encryptionAlgorithm is read as plain text by a server with a "
+               "key and refused by one without: counted (server_empty_algorithm_read_as_plain), not judged. A refused right "
+               "plain text password makes the run inconclusive (C20 judges it). "
+               "Trusted: the 15-line plaintext reference and the ~40-line token reference (deny / must_ok in c16_server_case) "
+               "in harness/crates/crypto/src/p_crypto.rs, and OpenSSL itself.",
     shards={"quick": 8, "thorough": 16},
     timeout={"quick": 600, "thorough": 3600},
     # thorough: a tenth of the workload again under AddressSanitizer (the OAEP-SHA256 path is the repository's only unsafe FFI)
